@@ -101,6 +101,42 @@ func Discharge(obls []*Obligation, timeout time.Duration, workers int, keepDir s
 	}
 	close(ch)
 	wg.Wait()
+	// second chance for obligations no solver decided: machine load makes solver times vary, and an undecided
+	// obligation must not be reported because of contention. Re-run them with a tripled timeout, few at a time.
+	var retry []int
+	for i, o := range obls {
+		if o.Result == "undischarged" && !o.Vacuity && o.Script != "" && !strings.Contains(o.Output, "disagreement") {
+			retry = append(retry, i)
+		}
+	}
+	if len(retry) > 0 && len(retry) <= 60 {
+		sem := make(chan struct{}, 4)
+		var wg2 sync.WaitGroup
+		for _, i := range retry {
+			wg2.Add(1)
+			go func(i int) {
+				defer wg2.Done()
+				sem <- struct{}{}
+				defer func() { <-sem }()
+				o := obls[i]
+				file := filepath.Join(dir, fmt.Sprintf("r%d.smt2", i))
+				if err := os.WriteFile(file, []byte(o.Script), 0644); err != nil {
+					return
+				}
+				prev := o.Output
+				o.Result, o.Solver, o.Output = "", "", ""
+				t := dischargeOne(o, file, 3*timeout)
+				if o.Result != "proved" {
+					o.Output = prev + " | retry: " + o.Output
+				}
+				mu.Lock()
+				solverTime += t
+				mu.Unlock()
+				os.Remove(file)
+			}(i)
+		}
+		wg2.Wait()
+	}
 	return solverTime, nil
 }
 
